@@ -20,6 +20,7 @@ enum E1 { E1_A = 1, E1_B = 2 };
 struct F8 { u8 a; };
 struct F16 { u8 a; u16 b; };
 struct F64 { u32 a; u64 b; u8 c; };
+struct F12 { u32 a; u32 b; u32 c; };
 struct FO { u8* a; u8 b; };
 struct FO8 { u64* a; };
 union U4 { 1: u8 a; 2: u16 b; };
@@ -44,6 +45,7 @@ typedef F64 TF64;
         t['F8'] = W.Struct('F8', [W.Field('a', u8)])
         t['F16'] = W.Struct('F16', [W.Field('a', u8), W.Field('b', u16)])
         t['F64'] = W.Struct('F64', [W.Field('a', u32), W.Field('b', u64), W.Field('c', u8)])
+        t['F12'] = W.Struct('F12', [W.Field('a', u32), W.Field('b', u32), W.Field('c', u32)])
         t['FO'] = W.Struct('FO', [W.Field('a', W.Optional(u8)), W.Field('b', u8)])
         t['FO8'] = W.Struct('FO8', [W.Field('a', W.Optional(u64))])
         t['U4'] = W.Union('U4', [W.Arm(1, 'a', u8), W.Arm(2, 'b', u16)])
@@ -60,7 +62,7 @@ typedef F64 TF64;
 
 POOL = Pool()
 
-FIXED_TYPES = ['u8', 'u16', 'u32', 'u64', 'i8', 'i16', 'i32', 'i64', 'E', 'E1', 'F8', 'F16', 'F64', 'FO', 'FO8',
+FIXED_TYPES = ['u8', 'u16', 'u32', 'u64', 'i8', 'i16', 'i32', 'i64', 'E', 'E1', 'F8', 'F16', 'F64', 'F12', 'FO', 'FO8',
                'U4', 'U8', 'TU16', 'TF64']
 DYN_TYPES = ['D1', 'D8', 'DD']
 UNL_TYPES = ['G1', 'G16']
@@ -152,6 +154,16 @@ def build_union(name, arm_types):
         lines.append('%d: %s a%d;' % (d, PTEXT.get(tn, tn), i))
         arms.append(W.Arm(d, 'a%d' % i, POOL.t[tn]))
     return 'union %s { %s };\n' % (name, ' '.join(lines)), W.Union(name, arms)
+
+
+def all_unions(prefix='UA'):
+    """every union of two arms over the fixed type pool (alignment / size interplay of the arms)"""
+    out, idx = [], 0
+    for i, a in enumerate(FIXED_TYPES):
+        for b in FIXED_TYPES[i:]:
+            out.append(build_union('%s%d' % (prefix, idx), [a, b]))
+            idx += 1
+    return out
 
 
 def sample_structs(rng, count, max_members=4, with_floats=False, prefix='S'):
